@@ -3,6 +3,7 @@
 properties given in meta), records which obligations caught it in seeded/<id>/meta.json, reverts."""
 import json, os, subprocess, sys, re, glob
 os.chdir('/verif')
+os.environ['VERIF_EVIDENCE_DIR'] = '/verif/out/evidence_scratch'  # never overwrite the registered evidence with a mutant run
 only = sys.argv[1:]
 for d in sorted(glob.glob('/verif/seeded/*')):
     sid = os.path.basename(d)
